@@ -644,6 +644,11 @@ where
 
     fn add_symbol_from(&mut self, from: Self::Size) -> Result<Self::Size, Self::Error> {
         let sym = self.convert_basic_data_at_to_symbol(from)?;
+        // the text is the symbol's name, as if it had been written as a literal
+        if self.get_symbol_string(sym)?.is_none() {
+            let name = self.string_from_basic_data_at(from)?;
+            return self.parse_add_symbol(&name);
+        }
         self.push_to_data_block(BasicData::Symbol(sym))
     }
 
